@@ -367,3 +367,91 @@ def builder_history(calls, opts=None, cls="LogicFormula"):
         c["nodes"] = _dump_nodes(f)
         out.append(c)
     return {"calls": out}
+
+
+# ------------------------------------------------------------------ C09 / C10 pipeline artefacts
+def _dump_graph(f, var_of_identifier=False):
+    out = []
+    for key, node, t in f:
+        if t == "atom":
+            det = 1 if node.probability is None or node.probability is True else (2 if node.probability is False else 0)
+            if var_of_identifier:
+                det = 0
+            out.append({"t": "atom", "ch": [], "id": str(node.identifier), "det": det,
+                        "var": int(node.identifier) if var_of_identifier else 0})
+        else:
+            out.append({"t": t, "ch": [_enc_key(c) for c in node.children], "id": "", "det": 0, "var": 0})
+    return out
+
+
+def _names(f):
+    d = {}
+    for name, key, label in f.get_names_with_label():
+        d[(str(name), str(label))] = _enc_key(key)
+    return d
+
+
+def parse_dimacs(txt):
+    nvars = 0
+    clauses = []
+    for line in txt.splitlines():
+        line = line.strip()
+        if not line or line.startswith("c"):
+            continue
+        if line.startswith("p"):
+            nvars = int(line.split()[2])
+            continue
+        lits = [int(x) for x in line.split()]
+        assert lits[-1] == 0
+        clauses.append(lits[:-1])
+    return {"nvars": nvars, "clauses": clauses}
+
+
+def pipeline_dump(text, gopts=None, with_nnf=True):
+    from problog.program import PrologString
+    from problog.formula import LogicFormula, LogicDAG
+    from problog.cnf_formula import CNF
+    from problog.ddnnf_formula import DDNNF
+    from problog.constraint import ConstraintAD
+    try:
+        lf = LogicFormula.create_from(PrologString(text), **(gopts or {}))
+    except Exception as e:      # grounding is not the subject of C09/C10 (see C01/C02)
+        return {"ground_error": type(e).__name__}
+    dag = LogicDAG.create_from(lf)
+    cnf = CNF.create_from(dag)
+    res = {"src": _dump_graph(lf), "dag": _dump_graph(dag), "cnf": parse_dimacs(cnf.to_dimacs())}
+    res["cnf_atomcount"] = cnf.atomcount
+    ns, nd, nc = _names(lf), _names(dag), _names(cnf)
+    cons = []
+    for c in dag.constraints():
+        if isinstance(c, ConstraintAD) and c.is_nontrivial():
+            cons.append(sorted(c.nodes) + [c.extra_node])
+    res["constraints"] = cons
+    res["weights_equal"] = 1
+    wd, wc = dag.get_weights(), cnf.get_weights()
+    if {k: str(v) for k, v in wd.items()} != {k: str(v) for k, v in wc.items()}:
+        res["weights_equal"] = 0
+    nn = {}
+    res["hasnnf"] = 0
+    res["nnf"] = []
+    if with_nnf:
+        nnf = DDNNF.create_from(cnf)
+        res["nnf"] = _dump_graph(nnf, var_of_identifier=True)
+        res["hasnnf"] = 1
+        nn = _names(nnf)
+        wn = nnf.get_weights()
+        # weights of the circuit's atoms must be the CNF weights of the variables they stand for
+        for key, node, t in nnf:
+            if t == "atom":
+                if str(wn.get(key)) != str(wc.get(node.identifier, True)):
+                    res["weights_equal"] = 0
+    names = []
+    for (n, l), k in ns.items():
+        if l not in ("query", "evidence+", "evidence-", "evidence?"):
+            continue
+        names.append({"name": n, "label": l, "src": k, "dag": nd.get((n, l), -FKEY), "cnf": nc.get((n, l), -FKEY),
+                      "nnf": nn.get((n, l), -FKEY) if with_nnf else 0})
+    res["names"] = names
+    res["sizes"] = {"src": len(res["src"]), "dag": len(res["dag"]), "cnfvars": res["cnf"]["nvars"],
+                    "nnf": len(res["nnf"]), "cyclic": 0}
+    return res
